@@ -67,6 +67,108 @@ func crashCase(r *rng, tier string) {
 	emit("end")
 }
 
+// crashDirected: append 1..n, sync, one DeleteRange(a, b), sync, stop - then a crash at EVERY write boundary of that history.
+// (head-side, tail-side and whole-chain deletions on both datastore flavours: on a context-aware datastore the deletes of a
+// range travel in ONE write batch, so no boundary inside the range exists there.)
+func crashDirected(flavour string, batch, n int, a, b uint64) {
+	cfg := storeCfg{batch: batch, cache: 512, flavour: flavour, n: n}
+	caseNo++
+	emit("case %d C06 batch=%d cache=%d flavour=%s n=%d ranges=0", caseNo, cfg.batch, cfg.cache, cfg.flavour, cfg.n)
+	core := memds.NewCore()
+	run := newStoreRun(cfg, core)
+	if err := run.open(); err != nil {
+		emit("ob res=openerr")
+		emit("end")
+		return
+	}
+	g := &storeGen{prop: "C06", run: run}
+	var hs []uint64
+	for h := 1; h <= n; h++ {
+		hs = append(hs, uint64(h))
+	}
+	g.do(storeOp{kind: "append", hs: hs})
+	g.syncObserve()
+	g.do(storeOp{kind: "delete", a: a, b: b})
+	g.do(storeOp{kind: "observe"})
+	g.syncObserve()
+	run.close()
+	log := append([]memds.Write(nil), core.Log...)
+	emit("log n=%d", len(log))
+	for k := 0; k <= len(log); k++ {
+		img := memds.Image(log, k)
+		desc := "-"
+		if k > 0 {
+			desc = describeWrite(log[k-1], run.byHash)
+		}
+		crashReopen(cfg, run, img, k, desc)
+	}
+	emit("end")
+}
+
+// pointerFaultCase: the datastore refuses exactly one write of a POINTER key (tail or head) - the direct write DeleteRange makes
+// after the headers of the range are gone. Whatever DeleteRange returns, the Tail and Head the running Store reports resolve
+// to stored headers, and a clean Stop/Start reports the same Head and Tail as before.
+func pointerFaultCase(flavour, which string, n int, a, b uint64) {
+	ctx := context.Background()
+	cfg := storeCfg{batch: 3, cache: 512, flavour: flavour, n: n}
+	core := memds.NewCore()
+	run := newStoreRun(cfg, core)
+	if err := run.open(); err != nil {
+		panic(err)
+	}
+	_ = run.st.Append(ctx, run.chain[:n]...)
+	_ = run.st.Sync(ctx)
+	failed := 0
+	core.Fault = func(w memds.Write) bool {
+		if failed == 0 && len(w.Ops) == 1 && w.Ops[0].Val != nil && strings.HasSuffix(w.Ops[0].Key, "/"+which) {
+			failed++
+			return true
+		}
+		return false
+	}
+	res := errs(run.st.DeleteRange(ctx, a, b))
+	core.Fault = nil
+	resolve := func(st *store.Store[*vhdr.Header]) (string, string, string) {
+		hd, tl, between := "none", "none", "ok"
+		h, eh := st.Head(ctx)
+		t, et := st.Tail(ctx)
+		if eh == nil {
+			hd = utoa(h.H)
+			if x, err := st.Get(ctx, h.Hash()); err != nil || x == nil {
+				hd += "!dangling"
+			}
+		}
+		if et == nil {
+			tl = utoa(t.H)
+			if x, err := st.Get(ctx, t.Hash()); err != nil || x == nil {
+				tl += "!dangling"
+			}
+		}
+		if eh == nil && et == nil {
+			for x := t.H; x <= h.H; x++ {
+				if y, err := st.GetByHeight(cancelled, x); err != nil || y.H != x {
+					between = "missing:" + utoa(x)
+					break
+				}
+			}
+		}
+		return hd, tl, between
+	}
+	h1, t1, b1 := resolve(run.st)
+	restart := "ok"
+	if err := run.st.Stop(ctx); err != nil {
+		restart = "stoperr"
+	}
+	if err := run.open(); err != nil {
+		restart = "starterr"
+		emit("C06 kind=pointerfault flavour=%s key=%s n=%d a=%d b=%d => injected=%d delete=%s head1=%s tail1=%s between1=%s restart=%s head2=- tail2=- between2=-", flavour, which, n, a, b, failed, res, h1, t1, b1, restart)
+		return
+	}
+	h2, t2, b2 := resolve(run.st)
+	run.close()
+	emit("C06 kind=pointerfault flavour=%s key=%s n=%d a=%d b=%d => injected=%d delete=%s head1=%s tail1=%s between1=%s restart=%s head2=%s tail2=%s between2=%s", flavour, which, n, a, b, failed, res, h1, t1, b1, restart, h2, t2, b2)
+}
+
 func describeWrite(w memds.Write, byHash map[string]uint64) string {
 	var parts []string
 	for _, o := range w.Ops {
@@ -245,6 +347,16 @@ func stopDuringSyncCase(trial int) {
 func runC06(tier string, r *rng) {
 	for trial := 0; trial < 8; trial++ { // which ready channel the flush loop's select takes is the runtime's choice
 		stopDuringSyncCase(trial)
+	}
+	for _, fl := range []string{"ctx", "plain"} {
+		crashDirected(fl, 3, 10, 6, 11) // head side
+		crashDirected(fl, 3, 10, 1, 5)  // tail side
+		crashDirected(fl, 64, 8, 1, 9)  // whole chain
+	}
+	for _, fl := range []string{"plain", "ctx"} {
+		pointerFaultCase(fl, "tail", 10, 1, 5)
+		pointerFaultCase(fl, "head", 10, 6, 11)
+		pointerFaultCase(fl, "tail", 10, 1, 10)
 	}
 	n, nf := 25, 40
 	if tier == "thorough" {
